@@ -306,6 +306,19 @@ func drawC21Script(ul userList, id int) c21Script {
 		s.bytes = append(s.bytes, sub...)
 		s.marks = append(s.marks, len(s.bytes))
 		s.expect = append(s.expect, 4)
+		// further credential messages on the same connection (a client that
+		// retries, or one that counts on a retry limit being mishandled)
+		for extra := []int{0, 0, 0, 1, 2, 3, 4, 6}[simrt.Choose(8, "extra-subnegs")]; extra > 0; extra-- {
+			more, moreName := drawSubneg(ul)
+			if len(more) == 0 {
+				break
+			}
+			simrt.Probe("c21_repeated_credentials")
+			s.bytes = append(s.bytes, more...)
+			s.marks = append(s.marks, len(s.bytes))
+			s.expect = append(s.expect, s.expect[len(s.expect)-1]+2)
+			subName += "+" + moreName
+		}
 	}
 	cmd, cmdName := drawCommand(id)
 	s.bytes = append(s.bytes, cmd...)
